@@ -64,3 +64,25 @@ PROPS["C10"] = {
     "not_proved": ["end-to-end propagation of the deadline into the handler's context (runtime behaviour; sampled)"],
     "rule": "stream timeout: gtmo.enc over every unit x digit-count boundary ±1/±half unit, extremes, 10k (300k thorough) random durations; gtmo.parse over grammatical (1..8 digits x 6 units), near-grammatical, byte-random and hour-overflow strings; the same headers through a real gRPC handler (user code must not run when rejected); Connect-Timeout-Ms headers through a real Connect handler with the handler-observed deadline; real Connect/gRPC clients with deadlines from 0.5 ms to 2^63 ns.",
 }
+
+PROPS["C03"] = {
+    "title": "Decoding does not depend on how the transport segments the bytes",
+    "lean_module": "ConnectProofs.C03",
+    "theorems": [
+        "ConnectModel.readLoop_spec",
+        "ConnectModel.readExact_spec",
+        "ConnectModel.Prog.run_sim",
+        "ConnectModel.C03.prog_segmentation_independent",
+        "ConnectModel.C03.prog_eq_flat",
+        "ConnectModel.C03.recv_segmentation_independent",
+        "ConnectModel.C03.read_segmentation_independent",
+        "ConnectModel.C03.one_byte_at_a_time",
+    ],
+    "streams": ["seg"],
+    "design_ref": "DESIGN.md §5 C03",
+    "technique": "Lean 4 simulation proof: every receive path is a reading program over io.ReadFull/io.CopyN modelled on single Read calls of an arbitrarily chunked transport; one lemma (Prog.run_sim) shows any such program depends only on the flat bytes and the ending + differential correspondence of the real envelope reader under exhaustive/adversarial segmentations",
+    "level_text": "Machine-checked proof, for all byte strings, all segmentations into non-empty reads, both EOF styles and all failure tails: the model of the library's read loops returns what the flat-bytes specification returns (readExact_spec, by induction over the chunk list), hence every reading program - envelope Read, Unmarshal, whole-direction receive, and whatever the protocol layers compute from them - is segmentation independent. The model is tied to the code by running the real envelopeReader (verif hook) on scripted readers with exactly the model's Read semantics: all 2^(n-1) segmentations x both EOF styles for bodies up to 13 bytes (16 thorough), 1-byte chunks, cuts inside every prefix and at payload boundaries ±1, random cuts, against the model's answer on the flat bytes and against one-piece delivery.",
+    "level_note": "Trusted: Lean kernel; the harness' scripted reader; that io.ReadFull / io.CopyN / bytes.Buffer.ReadFrom behave as the modelled loop (sampled on every run). Unary bodies (ReadFrom to EOF) and the gRPC trailer drain are covered by the protocol-level streams, not by this envelope-level stream.",
+    "assumptions": ["each Read returns at least one byte or an error (io.Reader contract; Script.wf)", "the transport's error is sticky once reported"],
+    "rule": "stream seg: 10 small bodies (plain, empty, compressed, end-stream, trailer frames, incomplete prefix) x ALL segmentations x both EOF styles; 150 (2500 thorough) generated multi-frame bodies x {one piece, 1-byte chunks, adversarial cuts in every prefix and around every boundary, 6 random cut sets} x tails {eof, unexpected EOF, transport error, coded errors} x limits; each op is compared with the model on the flat bytes and with one-piece delivery.",
+}
